@@ -428,7 +428,7 @@ pub fn encode_with_fixed_block_size<T: Source>(
         src.channels(),
         block_size,
     )?);
-    let parsink: Arc<ParSink<Frame>> = Arc::new(ParSink::new());
+    let parsink: Arc<ParSink<Result<Frame, VerifyError>>> = Arc::new(ParSink::new());
 
     let join_handles: Vec<_> = (0..worker_count)
         .map(|_n| {
@@ -473,7 +473,18 @@ pub fn encode_with_fixed_block_size<T: Source>(
                     );
                     encode_result.map_or_else(
                         |e| {
-                            unreachable!("{}, err={:?}", panic_msg::ERROR_NOT_EXPECTED, e);
+                            // The buffer is returned so that the feeder never starves, and
+                            // the error is handed to the caller in place of the frame.
+                            #[cfg(flacenc_verif)]
+                            crate::verif_hook::point("work.refill.send", bufid, frame_number);
+                            parbuf.enqueue_refill(bufid);
+                            let e = match e {
+                                EncodeError::Config(e) => e,
+                                EncodeError::Source(e) => {
+                                    VerifyError::new("input.framebuf", &e.to_string())
+                                }
+                            };
+                            parsink.push(frame_number, Err(e));
                         },
                         |mut frame| {
                             #[cfg(flacenc_verif)]
@@ -482,7 +493,7 @@ pub fn encode_with_fixed_block_size<T: Source>(
                             frame.precompute_bitstream();
                             #[cfg(flacenc_verif)]
                             crate::verif_hook::point("work.sink.push", frame_number, bufid);
-                            parsink.push(frame_number, frame);
+                            parsink.push(frame_number, Ok(frame));
                         },
                     );
                     #[cfg(flacenc_verif)]
@@ -510,6 +521,20 @@ pub fn encode_with_fixed_block_size<T: Source>(
     #[cfg(flacenc_verif)]
     crate::verif_hook::point("par.join.after", worker_count, 0);
 
+    // Errors are reported in stream order: an invalid block precedes a later
+    // read failure.
+    let mut encode_error: Option<VerifyError> = None;
+    destruct_arc(parsink).finalize(|r: Result<Frame, VerifyError>| match r {
+        Ok(f) => stream.add_frame(f),
+        Err(e) => {
+            if encode_error.is_none() {
+                encode_error = Some(e);
+            }
+        }
+    });
+    if let Some(e) = encode_error {
+        return Err(e.into());
+    }
     let feed_stats = feed_result?;
 
     info!(
@@ -524,8 +549,6 @@ pub fn encode_with_fixed_block_size<T: Source>(
     stream
         .stream_info_mut()
         .set_md5_digest(&context.md5_digest());
-
-    destruct_arc(parsink).finalize(|f: Frame| stream.add_frame(f));
 
     // `add_frame` lowers `min_block_size` when the last block is short, but the
     // minimum in STREAMINFO excludes the last block (and values below 16 are
